@@ -151,6 +151,9 @@ const fn mul_add(mut ui_a: u32, mut ui_b: u32, mut ui_c: u32, op: MulAddType) ->
                 k_z += 1;
                 exp_z &= 0x3;
             }
+            if (frac64_z & 0x1) != 0 {
+                bits_more = true;
+            }
             frac64_z = (frac64_z >> 1) & 0x7FFF_FFFF_FFFF_FFFF;
         } else {
             //for subtract cases
